@@ -16,6 +16,7 @@ import json
 from harness.common.framework import Prop
 from harness import symcommon as sc
 from harness import c01
+from harness import c07lib
 
 
 class Gen07(c01.Gen):
@@ -226,10 +227,17 @@ class C07(c01.C01):
           'calls, 18 % of them clone(deep or shallow) of an arbitrary node, the rest drawn from the '
           'whole mutator surface of C01 applied to arbitrary nodes of either copy; the model dump is '
           'compared after every step. Non-trivial: at least one clone of a value with >= 2 nodes '
-          'succeeded and a later call took effect; distinct: by the JSON text of the history.')
+          'succeeded and a later call took effect; distinct: by the JSON text of the history. '
+          'Plus an oracle-only family (400 / 5000 cases): pg.functor instances (function- and class-based, any subset of '
+          'arguments bound), pg.DNA of 3 search spaces with look-ups before cloning, oneof / manyof / floatv / nested hyper '
+          'values with derived state, 6 user classes (own __deepcopy__ / __copy__: return self, __new__ + __dict__, rebuild; '
+          'plain) under pg.symbolize and pg.wrap nested in Dict / List / Object trees; cloned by clone / clone(deep) / '
+          'copy.copy / copy.deepcopy, then 0-4 mutations of either copy.')
   trusted_base = c01.C01.trusted_base + [
       'copy.deepcopy of non-symbolic leaves returns an independent object (harness class Opq)',
-      'outside the model: pg.Ref sharing (exempted by the property), value specs, geno/hyper overrides of _sym_clone',
+      'outside the model: pg.Ref sharing (exempted by the property), value specs',
+      'oracle-only (no model, no correspondence): pg.Functor instances, pg.DNA bound to a DNASpec, hyper '
+      'primitives, symbolized / wrapped user classes with their own copy protocol (harness/c07lib.py)',
   ]
 
   def generate(self, rng, tier):
@@ -237,8 +245,26 @@ class C07(c01.C01):
     n = 450 if tier == 'quick' else 7000
     for _ in range(n):
       yield g.history()
+    # oracle-only family: library subclasses with per-object state (harness/c07lib.py)
+    for _ in range(400 if tier == 'quick' else 5000):
+      yield c07lib.gen_case(rng)
+
+  def shrink_candidates(self, case):
+    if 'lib' in case:
+      s = case['lib']
+      muts = s.get('muts', [])
+      for i in range(len(muts) - 1, -1, -1):
+        yield {'ops': [], 'lib': dict(s, muts=muts[:i] + muts[i + 1:])}
+      if s.get('pre'):
+        yield {'ops': [], 'lib': dict(s, pre=[])}
+      if s.get('tree', 'self') != 'self' and s['fam'] != 'wrapped':
+        yield {'ops': [], 'lib': dict(s, tree='self')}
+      return
+    yield from super().shrink_candidates(case)
 
   def impl(self, case):
+    if 'lib' in case:
+      return c07lib.run_case(case)
     pairs = []      # [orig, clone, content(orig), content(clone)]
     state = {'fail': None, 'before': None}
 
@@ -299,6 +325,8 @@ class C07(c01.C01):
   def nontrivial(self, case, out):
     if not isinstance(out, dict) or 'model' not in out:
       return False
+    if 'lib' in case:
+      return bool(case['lib'].get('muts'))
     seen_clone = False
     for j, s in zip(case['ops'], out['model']):
       if j['op'] == 'clone' and s['out'] == 'ok':
@@ -308,6 +336,19 @@ class C07(c01.C01):
     return False
 
   def describe(self, case, out):
+    if 'lib' in case:
+      s = case['lib']
+      h = ['lib:' + s['fam'], 'how:' + s['how'], 'tree:' + s.get('tree', 'self')]
+      for k in ('variant', 'kind'):
+        if k in s:
+          h.append('lib:%s:%s' % (s['fam'], s[k]))
+      if s['fam'] == 'wrapped':
+        h.append('lib:wrapped:' + c07lib.lib()['wrapped_names'][s['cls'] % 12])
+      for p in s.get('pre', []):
+        h.append('pre:' + p)
+      if isinstance(out, dict) and out.get('fail'):
+        h.append('oracle-fail:' + sig07(out['fail']))
+      return h
     h = super().describe(case, out)
     if isinstance(out, dict):
       h.append('clones:%s' % min(out.get('clones', 0), 3))
